@@ -50,7 +50,13 @@ def var_name(rng):
     return n
 
 
+_KEYWORD_STEMS = ["function", "declare", "export", "local", "readonly", "typeset"]
+
+
 def func_name(rng):
+    if rng.random() < 0.12:
+        # names that begin with a word the scanner treats specially, continued by a character bash allows in function names
+        return rng.choice(_KEYWORD_STEMS) + rng.choice(["-", ".", ":", "+", "_", "s", "X"]) + rng.choice(_STEMS) + rng.choice(_TAILS)
     n = rng.choice(_STEMS) + rng.choice(_TAILS)
     if rng.random() < 0.5:
         n += rng.choice(_FSEPS) + rng.choice(_STEMS) + rng.choice(_TAILS)
